@@ -318,6 +318,45 @@ def extract_tables(repo):
             rows.append((TRAITS[tr], TYS[slf], TYS[oth], callee, s1, s2, shape_from, kind == "assign_assert"))
         return rows
 
+    # ---- nothing outside the two scanned regions may implement an operator for Vector / Matrix: an `impl` anywhere in the crate is
+    # as good as one in vec.rs (after `#[cfg(test)]`, in array/mod.rs, in another module); and every invocation of one of the
+    # fan-out macros must be a top-level one (the only kind `expand_file` expands)
+    optraits = "|".join(list(TRAITS) + ["Neg"])
+    hdr = re.compile(r"\bimpl\b(?:\s*<[^>{;]*>)?\s*(?:[\w:]+::)?(?:%s)\b\s*(?:<[^{;]*?>)?\s+for\s+[^{;]*\{" % optraits)
+    srcroot = os.path.join(repo, "src")
+    for root, _dirs, fnames in os.walk(srcroot):
+        for fnm in fnames:
+            if not fnm.endswith(".rs"):
+                continue
+            full = os.path.join(root, fnm)
+            rel = os.path.relpath(full, srcroot)
+            txt = _strip_comments(open(full).read())
+            if rel in (os.path.join("linalg", "array", "vec.rs"), os.path.join("linalg", "array", "matrix.rs")):
+                k = txt.find("#[cfg(test)]")
+                txt = "" if k < 0 else txt[k:]
+                where = rel + " after #[cfg(test)]"
+            else:
+                where = rel
+            for m in hdr.finditer(txt):
+                if re.search(r"\b(Vector|Matrix)\b", m.group(0)):
+                    raise ValueError("operator impl for Vector/Matrix outside the scanned part of vec.rs / matrix.rs (%s): %s" % (where, _nows(m.group(0))[:100]))
+            if rel.startswith(os.path.join("linalg", "array")) and rel.split(os.sep)[-1] in ("mod.rs", "vec.rs", "matrix.rs", "vops.rs"):
+                if re.search(r"\b(?:vec_\w*op\w*|mat_\w*op\w*|impl_mat_\w+|impl_unary\w+|impl_vec_\w+|makefn_\w+)!\s*\(", strip_macro_defs(txt)) and where != rel:
+                    raise ValueError("fan-out macro invoked after #[cfg(test)] in %s" % rel)
+                if fnm == "mod.rs" and re.search(r"\w+!\s*\(|\bimpl\b|\bfn\b", txt):
+                    raise ValueError("array/mod.rs contains code (expected only `mod` / `use` items)")
+
+    def all_invocations_top_level(src, label):
+        body = strip_macro_defs(_strip_comments(src)).split("#[cfg(test)]")[0]
+        names = set(parse_macros(_strip_comments(src)))
+        anywhere = len(re.findall(r"\b(?:%s)!\s*\(" % "|".join(sorted(names)), body)) if names else 0
+        top = len([m for m in re.finditer(r"^(\w+)!\s*\(", body, re.M) if m.group(1) in names])
+        if anywhere != top:
+            raise ValueError("%s: %d macro invocations, only %d at top level (nested invocations are not expanded)" % (label, anywhere, top))
+    all_invocations_top_level(vec_src, "vec.rs")
+    all_invocations_top_level(mat_src, "matrix.rs")
+    all_invocations_top_level(open(os.path.join(d, "vops.rs")).read(), "vops.rs")
+
     vec_x, _ = expand_file(vec_src)
     mat_x, _ = expand_file(mat_src)
     vec_rows = op_rows(vec_x, "vector")
@@ -528,8 +567,9 @@ TRUSTED = [
     "call, every operand type must be Vector/&Vector/Matrix/&Matrix/f64, every `makefn_*!` macro body must match in full the "
     "template its model (Model/Vops.lean, runKern2 in Model/VecOps.lean: hand-written) was transcribed from - all 8 lanes in "
     "order with the family operand order (literal lanes, a `for lane in 0..8` loop or a block-zip loop), chunk count, assert, "
-    "tail loop `(chunks*8)..n` - likewise Neg, makefn_matops! and the map methods; anything else is an extraction alarm "
-    "(VIOLATION).  That these templates mean what the model says is a reading of Rust text, not a proof; the behaviour is "
+    "tail loop `(chunks*8)..n` - likewise Neg, makefn_matops! and the map methods; every .rs file of the crate (array/mod.rs and the "
+    "text after #[cfg(test)] included) is scanned for operator impls mentioning Vector / Matrix outside the two expanded regions, and "
+    "nested macro invocations are rejected; anything else is an extraction alarm (VIOLATION).  That these templates mean what the model says is a reading of Rust text, not a proof; the behaviour is "
     "additionally tied bit for bit at every length.  utils::sum / utils::dot: default-feature block compared in full with the "
     "text Cv.sum8 / Cv.dot8 were written from (a different spelling is a NOTE: correspondence-only for that run); the "
     "functions themselves are regenerated and proved equal to Cv.sum8 / Cv.dot8 in Props/SrcTieC04Mut.lean (sum_eq, dot_eq; "
@@ -1548,3 +1588,44 @@ srctie.wire_mut(globals(), 'C04')
 PROOF_MODULES = PROOF_MODULES + [m for m in ['Compute.Lemmas.FlModelGrid', 'Compute.Props.RoundingGrid'] if m not in PROOF_MODULES]
 REQUIRED_THEOREMS = REQUIRED_THEOREMS + [t for t in ['Cv.Rounding3U.logistic_range_ufl', 'Cv.Rounding3U.softmax_sum_error_ufl', 'Cv.FlModel.grid_abs_sub_le', 'Cv.FlModel.grid_idem', 'Cv.FlModel.grid_mono', 'Cv.FlModel.grid_rnd_one', 'Cv.FlModel.grid_rnd_natCast', 'Cv.FlModel.grid_rnd_dyadic', 'Cv.FlModel.f64grid_u', 'Cv.FlModel.f64grid_mono'] if t not in REQUIRED_THEOREMS]
 NOT_PROVED = list(NOT_PROVED) + ['theorems named stdmodel_* hold in the idealised standard model (fl(x) = x(1+d) for every operation, library functions with relative error <= u_f for every argument) at u = 2^-53; they describe binary64 only where nothing overflows or underflows (for exp: arguments in [-708.39, 709.78]); outside that range computed values may be exactly 0 or inf', 'under ExpLnUfl (exp computed as e^x(1+d)+eta, underflow allowed) logistic, softmax, RBF and RQ values are proved in [0,1] resp. >= 0 (namespace Rounding3U); strict positivity is a theorem of the no-underflow model only; logistic(800) = 1 and an RBF value of exactly 0 are exhibited', 'FlModel has a genuine instance, FlModel.grid p (radix 2, p digits, round to nearest, unbounded exponent; f64grid has u = 2^-53), proved to satisfy the standard model and to be idempotent and monotone, with integers <= 2^p and dyadics exact (Lemmas/FlModelGrid); headline rounding theorems are instantiated on it (Props/RoundingGrid); overflow and underflow remain outside the model']
+
+# --- FINAL texts (review round 2; owner of C04).  One coherent block: this is the value the manifest / evidence see.  The REQUIRED_THEOREMS
+# and PROOF_MODULES accumulated above are kept as they are; the bullets below say which of them are about C04 and which about the shared layers.
+NOT_PROVED = [
+    # --- C04 proper
+    "that the IEEE-754 operations + - * / and the libm functions of the Lean Float coincide with the Rust f64 methods is measured by the "
+    "bit-exact correspondence run, not proved; likewise the model spelling of the Rust std formulas for asinh / acosh / atanh (Cv.asinhF, "
+    "Cv.acoshF, Cv.atanhF over ln_1p, hypot, sqrt, ln) and f64::cbrt as the correctly rounded cube root (Cv.cbrtF): measured bit-identical on "
+    "1.2e6 (each formula) and 1.0e7 (cbrt) arguments and re-measured on every run by the scalar sweep lines",
+    "the link between the Rust text of the operator impls / kernel macros and the hand-written model functions (runKern2, vbin, vs, sv, vun, "
+    "vunArgI, ...) is a full-text template match in the translator of this file (whole crate scanned for stray operator impls) plus the "
+    "bit-exact run, not a generated Lean definition proved equal to the model; the wiring theorems are therefore about each operator form OF "
+    "THE MODEL",
+    "source tie by regeneration (translator owner): prod_eq, norm_eq, isMatrix_eq, infNorm_eq, sum_eq, dot_eq and logsumexp_src / "
+    "logmeanexp_src are unconditional; equality of the regenerated logsumexp / logmeanexp with the model, logsumexp_eq_of / logmeanexp_eq_of, "
+    "carries the hypothesis h0 : -0 + exp a = 0 + exp a (the Rust iterator sum starts from -0.0, the model from 0; an IEEE fact, exp never "
+    "returns -0.0, that Lean cannot prove of its opaque Float), and logmeanexp_eq_of additionally x != []; inside these functions dot and max "
+    "are substituted by name",
+    "Matrix op Matrix with different broadcast-compatible shapes is property C12; here: equal shapes (matrix_forms_exact) and, for operands "
+    "with at least one row and one column (C12.Good), shapes that do not broadcast (matrix_op_mismatch); zero-sized operands of unequal "
+    "shape are not covered by a theorem (tie and C12 only)",
+    "logsumexp / logmeanexp value theorems (logsumexpL_real, logsumexpE_real, logmeanexpL_real, shifted_bounds) assume non-empty input "
+    "without NaN over the reals; inputs containing +inf or only -inf return NaN in the implementation (inf - inf) and are outside the stated "
+    "domain; the empty slice: logsumexp of no element is f64::NEG_INFINITY by the guard of the repaired function (F55; logsumexpE_nil is an "
+    "rfl-level unfolding of that guard, the regression guard is the unconditional oracle check); logmeanexp of no element is undefined (0/0, "
+    "NaN) and not judged",
+    # --- the shared rounding layer (Props/Rounding*.lean, Lemmas/FlModel*.lean; owned by the lead / Rounding owner; required here because the
+    # C04 statement speaks of worst-case rounding bounds)
+    "ROUNDING LAYER (shared, not specific to C04): sum8_error (gamma_n), sum8_error_pred (gamma_(n-1); idempotent rounding and representable "
+    "inputs), dot8_error (gamma_n; idempotent rounding), prodL_error, normL_error(_idem), infNormL_error, logsumexp_error / logmeanexp_error, "
+    "shiftedExpSum_near, stdmodel_logsumexp_note are theorems of the standard model fl(x op y) = (x op y)(1+d), |d| <= u, with library "
+    "functions of relative error <= u_f for every argument; they describe binary64 only where nothing overflows or underflows (for exp: "
+    "arguments in [-708.39, 709.78], i.e. spread max - min <= 700 for logsumexp; overflow of v - xmax for opposite-sign inputs near "
+    "f64::MAX is not covered); outside that range computed values may be exactly 0 or inf",
+    "ROUNDING LAYER, general statements required here but not about C04 code: Rounding3U.logistic_range_ufl and softmax_sum_error_ufl "
+    "(underflow-aware exp model ExpLnUfl: logistic / softmax / kernel values, properties C17 / C20) and the FlModel.grid_* / f64grid_* "
+    "theorems (a genuine instance of the model: radix 2, p digits, round to nearest, unbounded exponent; u = 2^-53 for f64grid; idempotent, "
+    "monotone, integers <= 2^p and dyadics exact); overflow and underflow remain outside that instance",
+    "that the computed reductions stay within these bounds on actual f64 data is additionally decided per run by the oracle (exact rational / "
+    "40-digit references, same worst-case constants) on inputs inside the provisos",
+]
